@@ -95,6 +95,14 @@ META = {
         'note': PROOF_NOTE + 'the property-call proxy (native Wrappable._missing) is covered by the correspondence; known findings: non-callable and absent properties through try.',
         'technique': 'Lean 4 proof (fold/fmap commutation, induction over the step list) + random chain/accessor correspondence + same-run plain-vs-wrapped oracle',
     },
+    'C19': {
+        'text': 'Theorem over a model of what outlives an evaluation (the shared `_` error object with its stack trace, the scope handed to the next program, the constant scope): with the two repaired mechanisms (copy-on-evaluate of the shared '
+                'error, own scope per program) every program leaves the process state unchanged, hence for every history and every later program the observations (output, values read, error report lines) equal those of a new interpreter; '
+                'kernel-evaluated witnesses show each mechanism is necessary. Tied to the implementation by generated histories in executor style and `pangaea test` style compared with a newly started process, and by action-programs '
+                'compared with the model. Two defects found and repaired (fix: f772eb4, f87e1d1).',
+        'note': PROOF_NOTE + 'the list of process-wide state in the model comes from reading the package-level variables; the differential against a new process is what would expose state the model omits.',
+        'technique': 'Lean 4 proof (state-preservation invariant by induction over actions and histories) + differential of in-process histories against a newly started process',
+    },
     'C01': {
         'text': 'PARTIAL. Proved: obligations over regenerated facts (every built-in prototype shell is initialised; every built-in closure indexes args only below its length guards, 140 closures) and the no-panic theorems of the indexing '
                 'component for all inputs. Explored, not proved: the whole interpreter through a registry sweep (~130k property calls over a value pool), a program generator with a malformed stream, stdin, and the three entry points, '
